@@ -1,6 +1,6 @@
 """C15 — DNS client (DESIGN §4 C15)."""
 from tbxlint.facts import extract, AnalysisBroken, MODULES
-from tbxlint import tmon, locks, q, exc, rd, reent
+from tbxlint import harden, tmon, locks, q, exc, rd, reent
 
 DNS = 'tbox::network::DnsRequest'
 DES = 'tbox::util::Deserializer'
@@ -336,4 +336,6 @@ def run(ctx):
     ctx.guard(r5, ctx, prog)
     ctx.guard(r6, ctx, prog)
     ctx.guard(tmon.run, ctx, prog, 'C15.R7')
+    ctx.guard(harden.run, ctx, prog, 'C15.R8', [prog.fn1(DNS + '::onUdpRecv')],
+              lambda g: g.file.startswith(MODULES + '/network/') or g.file.startswith(MODULES + '/util/'), 'DNS datagram path')
     return prog
